@@ -88,6 +88,7 @@ Proof.
   all: try reflexivity.
   all: try (destruct ex; reflexivity).
   all: try (destruct cex; reflexivity).
+  all: unfold isMessageEventTerminalEvent; rewrite K.
   all: try exact Hnt.
   all: try exact terminal_open.
   all: try exact terminal_closed.
@@ -315,4 +316,230 @@ Proof.
     + rewrite as_cu_msgno0. destruct (get_cursor db hs _ _ _) as [cu|] eqn:Gc; cbn; [|reflexivity].
       apply get_cursor_key in Gc. tauto.
     + rewrite as_cursor0. unfold cursor_seq. destruct (get_cursor db hs _ _ _); reflexivity.
+Qed.
+
+(* ---- consequences: sequence numbers --------------------------------------------------- *)
+
+Definition msg_of (e : Event) := (e_channel e, e_ctype e, e_msgno e).
+
+Lemma cursor_seq_put db hs s cu a hs' c t m :
+  cursor_seq (put_rows db hs s cu a) hs' c t m =
+  if cursor_at hs' c t m (hs, cu) then cu_seq cu else cursor_seq db hs' c t m.
+Proof. unfold cursor_seq. rewrite get_cursor_put. destruct (cursor_at hs' c t m (hs, cu)); reflexivity. Qed.
+
+(* c40_seq_strict: one append either changes nothing, or advances exactly the
+   cursor of the event's message to its successor, which is also the sequence
+   of the result and of the lane; every other cursor is untouched *)
+Lemma append_seq_strict db hs e out db' :
+  AppendMessageEvent db hs e = (out, db') ->
+  db' = db
+  \/ exists ne r st',
+      normalizeMessageEventAppend e = Some ne /\ out = (ENone, Some r)
+      /\ get_applied db hs (e_channel ne) (e_ctype ne) (e_msgno ne) (e_id ne) = None
+      /\ cursor_seq db' hs (e_channel ne) (e_ctype ne) (e_msgno ne)
+         = wrap_succ (cursor_seq db hs (e_channel ne) (e_ctype ne) (e_msgno ne))
+      /\ r_seq r = cursor_seq db' hs (e_channel ne) (e_ctype ne) (e_msgno ne)
+      /\ get_state db' hs (e_channel ne) (e_ctype ne) (e_msgno ne) (e_key ne) = Some st'
+      /\ st_seq st' = r_seq r /\ r_key r = e_key ne
+      /\ (forall hs' c t m, cursor_at hs' c t m (hs, mkCursor (e_channel ne) (e_ctype ne) (e_msgno ne) 0 0%Z) = false ->
+                            cursor_seq db' hs' c t m = cursor_seq db hs' c t m).
+Proof.
+  intro E. pose proof (append_cases db hs e) as C. rewrite E in C.
+  inversion C as [ | | | ne st' cu' Nm Ga Gc Sc St Sm Sk Sl Cc Ct Cm Cs Ss Tm]; subst; try (left; reflexivity).
+  right. exists ne, (messageEventAppendResult ne st'), st'.
+  assert (Hat : cursor_at hs (e_channel ne) (e_ctype ne) (e_msgno ne) (hs, cu') = true).
+  { apply cursor_at_iff. cbn. tauto. }
+  repeat split; try assumption.
+  - rewrite cursor_seq_put, Hat. assumption.
+  - cbn [r_seq messageEventAppendResult]. rewrite cursor_seq_put, Hat. assumption.
+  - rewrite get_state_put.
+    assert (state_at hs (e_channel ne) (e_ctype ne) (e_msgno ne) (e_key ne) (hs, st') = true) as ->; [|reflexivity].
+    apply state_at_iff. cbn. tauto.
+  - intros hs' c t m Hne. rewrite cursor_seq_put.
+    assert (cursor_at hs' c t m (hs, cu') = false) as ->; [|reflexivity].
+    rewrite <- Hne. unfold cursor_at. cbn [fst snd cu_channel cu_ctype cu_msgno]. congruence.
+Qed.
+
+Lemma append_cursor_step db hs e hs' c t m :
+  let db' := snd (AppendMessageEvent db hs e) in
+  cursor_seq db' hs' c t m = cursor_seq db hs' c t m
+  \/ cursor_seq db' hs' c t m = wrap_succ (cursor_seq db hs' c t m).
+Proof.
+  destruct (AppendMessageEvent db hs e) as [out db'] eqn:E. cbn [snd].
+  destruct (append_seq_strict _ _ _ _ _ E) as [-> | (ne & r & st' & _ & _ & _ & Hc & _ & _ & _ & _ & Ho)]; [left; reflexivity|].
+  destruct (cursor_at hs' c t m (hs, mkCursor (e_channel ne) (e_ctype ne) (e_msgno ne) 0 0%Z)) eqn:Q.
+  - apply cursor_at_iff in Q. cbn in Q. destruct Q as (<- & <- & <- & <-). right. exact Hc.
+  - left. apply Ho. exact Q.
+Qed.
+
+(* running a list of appends *)
+Fixpoint run_appends (db : DB) (evs : list (N * Event)) : DB :=
+  match evs with
+  | [] => db
+  | (hs, e) :: r => run_appends (snd (AppendMessageEvent db hs e)) r
+  end.
+
+Lemma batch_appends_run db evs : snd (batch_appends db evs) = run_appends db evs.
+Proof.
+  revert db. induction evs as [|[hs e] r IH]; intro db; cbn [batch_appends run_appends]; [reflexivity|].
+  destruct (AppendMessageEvent db hs e) as [o db1]. cbn [snd].
+  specialize (IH db1). destruct (batch_appends db1 r) as [os db2]. cbn [snd] in *. exact IH.
+Qed.
+
+(* c40_seq_strict over histories: below 2^64-1 events, a message's cursor never decreases
+   and grows by at most one per event *)
+Lemma run_cursor_monotone evs : forall db hs c t m,
+  cursor_seq db hs c t m + N.of_nat (length evs) <= u64max ->
+  cursor_seq db hs c t m <= cursor_seq (run_appends db evs) hs c t m
+  /\ cursor_seq (run_appends db evs) hs c t m <= cursor_seq db hs c t m + N.of_nat (length evs).
+Proof.
+  induction evs as [|[hs0 e] r IH]; intros db hs c t m B; cbn [run_appends length] in *; [lia|].
+  pose proof (append_cursor_step db hs0 e hs c t m) as S. cbn zeta in S.
+  set (db1 := snd (AppendMessageEvent db hs0 e)) in *.
+  assert (Hs : cursor_seq db1 hs c t m = cursor_seq db hs c t m \/ cursor_seq db1 hs c t m = cursor_seq db hs c t m + 1).
+  { destruct S as [S|S]; [left; exact S|right]. rewrite S. apply wrap_succ_lt. unfold u64max in *. lia. }
+  assert (B1 : cursor_seq db1 hs c t m + N.of_nat (length r) <= u64max) by lia.
+  specialize (IH db1 hs c t m B1). lia.
+Qed.
+
+(* ---- consequences: a finalized lane never changes -------------------------------------- *)
+
+Lemma append_preserves_terminal db hs' e hs c t m key s :
+  get_state db hs c t m key = Some s -> isMessageEventTerminal (st_status s) = true ->
+  get_state (snd (AppendMessageEvent db hs' e)) hs c t m key = Some s.
+Proof.
+  intros G T. pose proof (append_cases db hs' e) as C.
+  destruct (AppendMessageEvent db hs' e) as [out db'] eqn:E. cbn [snd].
+  inversion C as [ | | | ne st' cu' Nm Ga Gc Sc St Sm Sk Sl Cc Ct Cm Cs Ss Tm]; subst; try assumption.
+  rewrite get_state_put. destruct (state_at hs c t m key (hs', st')) eqn:Q; [|exact G].
+  exfalso. apply state_at_iff in Q. cbn in Q. destruct Q as (-> & Q1 & Q2 & Q3 & Q4).
+  assert (G' : get_state db hs (e_channel ne) (e_ctype ne) (e_msgno ne) (e_key ne) = Some s) by congruence.
+  rewrite G' in Gc. rewrite T, orb_true_r in Gc. discriminate.
+Qed.
+
+Lemma run_preserves_terminal evs : forall db hs c t m key s,
+  get_state db hs c t m key = Some s -> isMessageEventTerminal (st_status s) = true ->
+  get_state (run_appends db evs) hs c t m key = Some s.
+Proof.
+  induction evs as [|[hs0 e] r IH]; intros db hs c t m key s G T; cbn [run_appends]; [exact G|].
+  apply IH; [|exact T]. apply append_preserves_terminal; assumption.
+Qed.
+
+(* an event addressed to a finalized lane (and not itself a replay) is a no-op that returns the stored lane *)
+Lemma append_on_terminal db hs e ne s :
+  normalizeMessageEventAppend e = Some ne ->
+  get_applied db hs (e_channel ne) (e_ctype ne) (e_msgno ne) (e_id ne) = None ->
+  get_state db hs (e_channel ne) (e_ctype ne) (e_msgno ne) (e_key ne) = Some s ->
+  isMessageEventTerminal (st_status s) = true ->
+  AppendMessageEvent db hs e = ((ENone, Some (messageEventAppendResult ne s)), db).
+Proof.
+  intros Nm Ga Gs T. unfold AppendMessageEvent. rewrite Nm, Ga, Gs. cbn [opt_or is_some].
+  rewrite reduce_noop; [reflexivity|]. unfold reduce_noop_cond. rewrite T, orb_true_r. reflexivity.
+Qed.
+
+(* ---- consequences: replays ------------------------------------------------------------- *)
+
+(* any recorded event id: nothing changes, the recorded lane / sequence / status come back *)
+Lemma append_replay db hs e ne a :
+  normalizeMessageEventAppend e = Some ne ->
+  get_applied db hs (e_channel ne) (e_ctype ne) (e_msgno ne) (e_id ne) = Some a ->
+  exists r, AppendMessageEvent db hs e = ((ENone, Some r), db)
+            /\ r_key r = ap_key a /\ r_seq r = ap_seq a /\ r_status r = ap_status a /\ r_id r = e_id ne.
+Proof.
+  intros Nm Ga. unfold AppendMessageEvent. rewrite Nm, Ga. eexists. split; [reflexivity|].
+  cbn. repeat split.
+Qed.
+
+(* applied rows are never overwritten *)
+Lemma append_preserves_applied db hs' e hs c t m id a :
+  get_applied db hs c t m id = Some a ->
+  get_applied (snd (AppendMessageEvent db hs' e)) hs c t m id = Some a.
+Proof.
+  intro G. pose proof (append_cases db hs' e) as C.
+  destruct (AppendMessageEvent db hs' e) as [out db'] eqn:E. cbn [snd].
+  inversion C as [ | | | ne st' cu' Nm Ga Gc Sc St Sm Sk Sl Cc Ct Cm Cs Ss Tm]; subst; try assumption.
+  rewrite get_applied_put.
+  destruct (applied_at hs c t m id (hs', messageEventAppliedFromResult ne (messageEventAppendResult ne st'))) eqn:Q; [|exact G].
+  exfalso. apply applied_at_iff in Q. cbn in Q. destruct Q as (-> & <- & <- & <- & <-). congruence.
+Qed.
+
+Lemma run_preserves_applied evs : forall db hs c t m id a,
+  get_applied db hs c t m id = Some a -> get_applied (run_appends db evs) hs c t m id = Some a.
+Proof.
+  induction evs as [|[hs0 e] r IH]; intros db hs c t m id a G; cbn [run_appends]; [exact G|].
+  apply IH. apply append_preserves_applied. exact G.
+Qed.
+
+(* idempotence: the same call again returns the same outcome and changes nothing *)
+Lemma append_idempotent db hs e out db' :
+  AppendMessageEvent db hs e = (out, db') -> AppendMessageEvent db' hs e = (out, db').
+Proof.
+  intro E. pose proof (append_cases db hs e) as C. rewrite E in C.
+  inversion C as [ | | | ne st' cu' Nm Ga Gc Sc St Sm Sk Sl Cc Ct Cm Cs Ss Tm]; subst; try exact E.
+  unfold AppendMessageEvent. rewrite Nm.
+  set (res := messageEventAppendResult ne st').
+  set (ap := messageEventAppliedFromResult ne res).
+  rewrite get_applied_put.
+  assert (applied_at hs (e_channel ne) (e_ctype ne) (e_msgno ne) (e_id ne) (hs, ap) = true) as ->.
+  { apply applied_at_iff. cbn. tauto. }
+  rewrite get_state_put.
+  assert (state_at hs (e_channel ne) (e_ctype ne) (e_msgno ne) (ap_key ap) (hs, st') = true) as ->.
+  { apply state_at_iff. cbn. tauto. }
+  cbn [opt_or is_some]. f_equal. f_equal. f_equal.
+  unfold messageEventAppendResultFromApplied, ap, res.
+  cbn [messageEventAppliedFromResult messageEventAppendResult ap_seq ap_key ap_status r_seq r_key r_status].
+  rewrite Sl, bytes_eqb_refl, N.eqb_refl. reflexivity.
+Qed.
+
+(* a later replay of an applied event, after any further history, still returns
+   the recorded lane, sequence and status and changes nothing *)
+Lemma replay_after_history db hs e out db1 evs ne r :
+  AppendMessageEvent db hs e = (out, db1) -> db1 <> db ->
+  normalizeMessageEventAppend e = Some ne -> out = (ENone, Some r) ->
+  let db2 := run_appends db1 evs in
+  exists r', AppendMessageEvent db2 hs e = ((ENone, Some r'), db2)
+             /\ r_key r' = r_key r /\ r_seq r' = r_seq r /\ r_status r' = r_status r.
+Proof.
+  intros E Hne Nm0 Ho db2. subst out. pose proof (append_cases db hs e) as C. rewrite E in C.
+  inversion C as [ | | | ne1 st' cu' Nm Ga Gc Sc St Sm Sk Sl Cc Ct Cm Cs Ss Tm]; subst; try congruence.
+  assert (ne1 = ne) by congruence. subst ne1.
+  set (res := messageEventAppendResult ne st') in *.
+  set (ap := messageEventAppliedFromResult ne res) in *.
+  assert (Ga' : get_applied (put_rows db hs st' cu' ap) hs (e_channel ne) (e_ctype ne) (e_msgno ne) (e_id ne) = Some ap).
+  { rewrite get_applied_put.
+    assert (applied_at hs (e_channel ne) (e_ctype ne) (e_msgno ne) (e_id ne) (hs, ap) = true) as ->; [|reflexivity].
+    apply applied_at_iff. cbn. tauto. }
+  apply (run_preserves_applied evs) in Ga'. fold db2 in Ga'.
+  destruct (append_replay db2 hs e ne ap Nm0 Ga') as (r' & E' & K1 & K2 & K3 & _).
+  exists r'. split; [exact E'|]. rewrite K1, K2, K3. cbn. tauto.
+Qed.
+
+(* ---- lane sequences stay below the message cursor --------------------------------------- *)
+
+Definition lanes_below_cursor (db : DB) : Prop :=
+  forall hs c t m key s, get_state db hs c t m key = Some s -> st_seq s <= cursor_seq db hs c t m.
+
+Lemma lanes_below_empty : lanes_below_cursor db_empty.
+Proof. intros hs c t m key s G. discriminate. Qed.
+
+Lemma append_lanes_below db hs e :
+  lanes_below_cursor db ->
+  (forall ne, normalizeMessageEventAppend e = Some ne ->
+              cursor_seq db hs (e_channel ne) (e_ctype ne) (e_msgno ne) < u64max) ->
+  lanes_below_cursor (snd (AppendMessageEvent db hs e)).
+Proof.
+  intros I B. pose proof (append_cases db hs e) as C.
+  destruct (AppendMessageEvent db hs e) as [out db'] eqn:E. cbn [snd].
+  inversion C as [ | | | ne st' cu' Nm Ga Gc Sc St Sm Sk Sl Cc Ct Cm Cs Ss Tm]; subst; try exact I.
+  intros hs' c t m key s G. rewrite get_state_put in G. rewrite cursor_seq_put.
+  specialize (B ne Nm). rewrite (wrap_succ_lt _ B) in Cs.
+  destruct (state_at hs' c t m key (hs, st')) eqn:Q.
+  - inversion G; subst s. apply state_at_iff in Q. cbn in Q. destruct Q as (<- & Q1 & Q2 & Q3 & Q4).
+    assert (cursor_at hs c t m (hs, cu') = true) as ->; [|lia].
+    apply cursor_at_iff. cbn. repeat split; congruence.
+  - specialize (I _ _ _ _ _ _ G).
+    destruct (cursor_at hs' c t m (hs, cu')) eqn:Qc; [|exact I].
+    apply cursor_at_iff in Qc. cbn in Qc. destruct Qc as (<- & Q1 & Q2 & Q3).
+    assert (cursor_seq db hs c t m = cursor_seq db hs (e_channel ne) (e_ctype ne) (e_msgno ne)) by congruence.
+    lia.
 Qed.
